@@ -243,6 +243,15 @@ def run(ctx):
     datap = ctor.params[1]["decl"]
     cr = list(ctor.calls(PKT + "::create"))
     smh = list(ctor.calls(PKT + "::setMessageHeader"))
+    inplace = False
+    if len(cr) == 1 and not smh and fb.fn_opt(PKT + "::setMessageHeader") is None:
+        # the header reader written out in the constructor itself: the statements that copy the header fields stand where the call stood
+        st = [x for x in ctor.calls(PKT + "::setTimestamp")]
+        if len(st) == 1:
+            hobj = [y.get("obj") for y in walk(st[0]["args"][0]) if y.get("k") == "call" and callee_name(y) == MH + "::getTimestamp" and "obj" in y]
+            if len(hobj) == 1:
+                inplace = True
+                smh = [{"k": "call", "id": st[0]["id"], "loc": st[0].get("loc"), "args": [{"k": "ref", "dk": "param", "decl": ctor.params[0]["decl"], "t": ctor.params[0]["t"]}, hobj[0]]}]
     if len(cr) != 1 or len(smh) != 1:
         raise Broken("Packet constructor: expected one create() and one setMessageHeader()")
     c = cr[0]
@@ -279,7 +288,7 @@ def run(ctx):
                 not any(d == hv["decl"] and kind != "addr" for d, kind, _ in facts.writes_of(ctor))
     res.check(at0, "C04-R1", "Packet():header-view", smh[0].get("loc"), "message header taken from offset 0 of the message", "message header is not read at the start of the message")
     # setMessageHeader rows
-    f = fb.fn(PKT + "::setMessageHeader")
+    f = ctor if inplace else fb.fn(PKT + "::setMessageHeader")
     en = {e["name"]: e["value"] for e in fb.enum(CH + "::MessageType")["enumerators"]}
     from cmpverif import tables
     sel = [prm["decl"] for prm in f.params if (prm["t"].get("s") or "").replace("const ", "").strip().endswith("MessageType")]
@@ -291,7 +300,7 @@ def run(ctx):
                 "something else (%s) — for a message whose payload is marked invalid the interface / vendor id of the wire is not reported" %
                 sorted(callee_name(c) for c in f.calls() if "MessageType" in (callee_name(c) or ""))[:3])
         sel = [None]
-    elif True:
+    elif not inplace:
         # and the argument bound to it in the constructor is the constructor's own message-type parameter
         ca = facts.effective_call(smh[0]).get("args", [])
         pidx = [prm["decl"] for prm in f.params].index(sel[0])
